@@ -1,6 +1,7 @@
 import CarModel.Driver.Idx
 import CarModel.Spec
 import CarModel.Resume
+import CarModel.Faults
 /- Families `open/put/many/has/get/size/keys/roots/finalize/finro/close/discard/file` — C04, C05, C20. -/
 namespace Car.Driver
 
@@ -51,8 +52,43 @@ def famOpen (kv : KV) : Sess × String × String :=
   let (m, _) := Store.create api o roots
   ({ o := o, roots := roots, m := m, s := { api := api, roots := roots.getD [] } }, "r=ok", "r=ok")
 
+def parseFault (kv : KV) : Option Fault :=
+  match (KV.get kv "fail").map (·.splitOn ":") with
+  | some [k, n] => match k.toNat?, n.toNat? with
+    | some k, some n => some ⟨k, n⟩
+    | _, _ => none
+  | _ => none
+
+/-- put / finalize with an injected write failure (C16) -/
+def famFaultOp (se : Sess) (fam : String) (kv : KV) (f : Fault) : Sess × String × String :=
+  if fam == "put" then
+    let c := (parseCid (KV.getD kv "c" "")).getD default
+    let d := KV.bytes kv "d"
+    let guard : Option Err := if se.m.closed then some .closed
+      else if se.m.api = .blockstore ∧ se.m.finalized then some .finalized else none
+    match guard with
+    | some e => (se, "r=" ++ errName e, "r=" ++ errName e)
+    | none =>
+      let rm := se.m.putOneF se.o c d (some f)
+      let fired := match rm.2.1 with | .err .other => true | _ => false
+      if fired then ({ se with m := rm.1 }, "r=other", "r=!ok")   -- spec: a failed Put stores nothing
+      else
+        let rs := Spec.step se.o se.s (.put c d)
+        ({ se with m := rm.1, s := rs.1 }, "r=" ++ outStr false rm.2.1, "r=" ++ outStr false rs.2)
+  else
+    let rm := se.m.finalizeF se.o (some f)
+    let fired := match rm.2.1 with | .err .other => true | _ => false
+    if fired then
+      -- spec: Finalize failed; the store is unusable from now on (closed), nothing is acknowledged
+      ({ se with m := rm.1, s := { se.s with closed := true, finalized := true } }, "r=other", "r=!ok")
+    else
+      let rs := Spec.step se.o se.s .finalize
+      ({ se with m := rm.1, s := rs.1 }, "r=" ++ outStr false rm.2.1, "r=" ++ outStr false rs.2)
+
 def famOp (se : Sess) (fam : String) (kv : KV) : Sess × String × String :=
-  if fam == "file" then
+  if (fam == "put" || fam == "finalize") && (parseFault kv).isSome then
+    famFaultOp se fam kv ((parseFault kv).getD ⟨0, 0⟩)
+  else if fam == "file" then
     let spec := if se.s.finalized ∨ (se.s.api = .storage ∧ se.s.closed) then
                   ((Spec.finalFile se.o se.roots se.s.log).map toHex).getD "none"
                 else toHex (Spec.openFile se.o se.roots se.s.log)
